@@ -238,7 +238,7 @@ func c01Corpus(c *Ctx) error {
 
 func c01Fresh(c *Ctx) error {
 	r := c.Rng.Fork()
-	n := nFor(c, 14, 320, 40)
+	n := nFor(c, 20, 600, 40)
 	maxSize := 3*lib.BS + 17
 	if !c.Thorough() {
 		maxSize = 2*lib.BS + 17 // the model side of a quick run stays within seconds
@@ -269,7 +269,7 @@ func c01Fresh(c *Ctx) error {
 
 func c01Pairs(c *Ctx) error {
 	r := c.Rng.Fork()
-	n := nFor(c, 24, 300, 30)
+	n := nFor(c, 24, 400, 30)
 	for i := 0; i < n; i++ {
 		cr := r.Fork()
 		opts := lib.PairOpts{MaxFiles: 5, MaxSize: 4 * lib.BS, Links: true}
@@ -297,7 +297,7 @@ func c01Pairs(c *Ctx) error {
 
 func c01Apply1(c *Ctx) error {
 	r := c.Rng.Fork()
-	n := nFor(c, 300, 6000, 3000)
+	n := nFor(c, 500, 12000, 3000)
 	bss := []int{1, 2, 3, 4, 5, 8, 16}
 	for i := 0; i < n; i++ {
 		cr := r.Fork()
@@ -709,7 +709,7 @@ func c01Craft(c *Ctx) error {
 			return err
 		}
 	}
-	n := nFor(c, 20, 900, 900)
+	n := nFor(c, 30, 1500, 900)
 	for i := 0; i < n; i++ {
 		cr := r.Fork()
 		cf := genCraft(cr)
